@@ -4,7 +4,7 @@
    circumscribed edges, the rounded-rectangle box and the winding of the trig outlines are decided by
    the oracles on sampled outputs (exploration), see DESIGN.md. *)
 From Coq Require Import Reals ZArith List Lia.
-From SCAD Require Import Base.Num Base.NumR Base.Vec Base.Vec_proofs Base.Rot_proofs Geom.Poly Geom.Dim2 Geom.Dim2_proofs.
+From SCAD Require Import Base.Num Base.NumR Base.Vec Base.Vec_proofs Base.Rot_proofs Geom.Poly Geom.Dim2 Geom.Dim2_proofs Geom.Dim2_winding.
 Import ListNotations.
 Local Open Scope R_scope.
 
@@ -86,3 +86,13 @@ Theorem C07_rounded_rect_centred : forall (w h r : R) (segments : Z) pts, (0 < r
   exists pts0, rounded_rect w h r segments false = Some pts0 /\ pts = map (fun p => pt2_add p (Pt2 (- w / 2) (- h / 2))%R) pts0 /\
                Forall (in_box (- w / 2) (- h / 2) (w / 2) (h / 2))%R pts.
 Proof. exact rounded_rect_centred. Qed.
+(* the rounded rectangle, centred or not, is wound clockwise: seen from the centre of its box every chord of the four
+   corner arcs and every straight side turns clockwise, so the shoelace area is negative -- all 0 < r < min(w,h)/2,
+   segments >= 1 *)
+Theorem C07_rounded_rect_clockwise : forall (w h r : R) (segments : Z) (center : bool) pts, (0 < r)%R -> (2 * r < w)%R -> (2 * r < h)%R -> (1 <= segments)%Z ->
+  rounded_rect w h r segments center = Some pts -> (area2 pts < 0)%R.
+Proof. exact rounded_rect_clockwise. Qed.
+(* moving a closed outline does not change its shoelace area (so winding is a property of the shape, not of where
+   `center` puts it) *)
+Theorem C07_area_translation_invariant : forall (v : pt2 R) l, area2 (pt2s_translate l v) = area2 l.
+Proof. exact area2_translate. Qed.
